@@ -21,11 +21,12 @@ class Rooms:
     def create(self, r, t):
         self.entries[r] = [("admin", OWN, t, True)]
 
-    def add(self, r, role, k, t, en):
-        self.entries.setdefault(r, []).append((role, k, t, en))
+    def add(self, r, role, k, t, en, g="0"):
+        # an entry list is per role and, for users and user admins, per authorisation group
+        self.entries.setdefault(r, []).append((role if role == "admin" else role + "/" + g, k, t, en))
 
     def valid_at(self, r, k, d):
-        for role in ("admin", "user", "useradmin"):
+        for role in sorted({ro for (ro, _, _, _) in self.entries.get(r, [])}):
             last = None
             for (ro, key, t, en) in self.entries.get(r, []):
                 if ro == role and key == k and t <= d: last = en       # later insertions win ties
@@ -46,21 +47,23 @@ class C08(Cfg):
     harness_pkg = "dv-serve"
     model_exe = "dmodel_serve"
     design_ref = "DESIGN.md §6 C08, §3.2 T1, §4 site 25, App. A.11"
-    technique = ("Lean 4 invariant proofs over a model of the serving side whose request table is regenerated from peer_outbound_service.rs on every run (translator T1) "
-                 "+ decide-checked witnesses + correspondence run of the real InboundQueryService loop on a real database (exhaustive product and random sequences)")
-    level_text = ("Theorems (Lean 4, any sequence of handshake / requests of every kind with arbitrary identifiers / clock / room-definition changes / data changes, any length): "
-                  "every data-bearing request kind is guarded by allowed_room.contains(room) with the database read inside the guarded branch on the guarded room, RoomList by key-proven-and-ready (decide on the regenerated table); "
+    technique = ("Lean 4 invariant proofs over a model of the serving side whose request table, membership re-check and room-definition event rule are regenerated from peer_outbound_service.rs / peer_inbound_service.rs on every run (translator T1/T1b) "
+                 "+ decide-checked witnesses + correspondence run of the real InboundQueryService loop on a real database (exhaustive product, membership-change sequences and random sequences)")
+    level_text = ("Theorems (Lean 4, any sequence of handshake / requests of every kind with arbitrary identifiers / clock / room-definition changes carrying any definition / data changes, any length): "
+                  "every data-bearing request kind is guarded by allowed_room.contains(room) with the database read inside the guarded branch on the guarded room, RoomList by key-proven-and-ready (decide on the regenerated table); the event handler admits a room only for a key that is a valid member at that moment (decide on the regenerated event rule); "
                   "before authentication the allowed table is empty and every request gets silence, a refusal or the identity proof; every data answer names a room of the allowed table and contains only rows of that room (row filters of node.rs/edge.rs/daily_log.rs modelled); "
                   "every allowed room was admitted for the proven key at a time t<=now at which the key was a valid member of the room according to the definition then in force. "
-                  "The full statement (member NOW) is proved for a serving side that re-checks membership and is FALSE of the code: decide-checked witness for a former member on a live connection, replayed on the real code (known finding); "
+                  "The full statement (member NOW when the answer is produced, for every interleaving of requests, definition changes and clock moves; revocation of the room at the request) is proved for ANY serving code whose regenerated description re-checks membership in front of every room-guarded request kind (C08_full_of, C08_every_answer_of) "
+                  "and is FALSE of the code as it is, which never re-checks: decide-checked witness for a former member on a live connection, replayed on the real code (known finding; repair proposed in findings/C08-former-member-still-served.patch, after which C08_full is a theorem about Defects.asImplemented and Gen.code); revoking only when the definition-change event arrives is shown insufficient (C08_revokeOnEvent_insufficient: an entry dated ahead of the clock); "
                   "the second defect found (a disabled-only user admitted through has_user on a definition change) was fixed in /repo (81b6434) and is kept as a regression witness and corpus case. "
                   "Tie: the real InboundQueryService::start loop (process_inbound + add_allowed_room) and the real process_local_event fed with the instance's real RoomModified events, on a real database with 3-4 rooms, rows, references, deletions and logs, plus room-less rows (private rows, room-definition rows, the sys.Peer row) named in Nodes/Edges requests; "
-                  "requester in 6 membership states x 7 positions relative to authentication / room list / definition changes x every request kind x own/foreign/mixed/unknown identifiers (exhaustive product) + random sequences; every Answer decoded with bincode and compared with the model; independent oracle on the decoded answers.")
-    level_note = ("Trusted: Lean kernel (+propext, Classical.choice, Quot.sound), translator T1 (regex level), the hand-written model of the row filters and of rooms_for_peer/has_user (shared Room model), the correspondence harness. "
-                  "Modelled and exercised: process_inbound, add_allowed_room, process_local_event, Node/Edge::filtered_by_room, daily nodes, deletion logs, daily logs, room definition, peers_for_room. "
+                  "requester in 6 membership states x 7 positions relative to authentication / room list / definition changes x every request kind x own/foreign/mixed/unknown identifiers (exhaustive product) + membership changing between requests on live connections (disabled, re-enabled, admin and user-admin demoted, moved between authorisation groups, a second connection with another key) x every request kind + random sequences; every Answer decoded with bincode and compared with the model; independent oracle on the decoded answers.")
+    level_note = ("Trusted: Lean kernel (+propext, Classical.choice, Quot.sound), translator T1 (regex level; an unrecognised prelude, arm or event handler stops the obligations from checking), the hand-written model of the row filters and of rooms_for_peer/has_user (shared Room model), the correspondence harness. "
+                  "Modelled and exercised: process_inbound (prelude + arms), add_allowed_room, process_local_event, Node/Edge::filtered_by_room, daily nodes, deletion logs, daily logs, room definition, peers_for_room. "
+                  "A request is atomic in the model: a definition installed between the membership re-check and the database read of the same request is not modelled. "
                   "Not covered: the handshake that binds the key (C19), the QUIC transport, batching of large answers (answers here fit one batch).")
     trusted_base = [
-        "translator /verif/translators/serve_table.py (regex level) regenerating Gen/ServeTable.lean from src/synchronisation/peer_outbound_service.rs and mod.rs",
+        "translator /verif/translators/serve_table.py (regex level) regenerating Gen/ServeTable.lean (request table with guard / read / membership re-check per kind, event rule) from src/synchronisation/peer_outbound_service.rs, peer_inbound_service.rs and mod.rs",
         "hand-written model lean/DiscretModel/Model/Serve.lean (row filters, rooms_for_peer, has_user, allowed table) over the shared Model/Room.lean, tied by the correspondence run (dv-serve vs dmodel_serve)",
         "harness/serve: real GraphDatabaseService + real InboundQueryService::start + LocalPeerService::verif_process_local_event (hook); the key is bound by the harness as initialise_connection does (C19 covers that step)",
     ]
@@ -85,7 +88,10 @@ class C08(Cfg):
         n = 60 if tier == "quick" else 1200
         q = os.path.join(work, "random.ops")
         lib.sh([dv, "gen08", "--seed", str(seed), "--n", str(n), "--out", q], check=True)
+        m = os.path.join(work, "membership.ops")
+        lib.sh([dv, "memb08", "--out", m], check=True)
         return [("product membership(6) x position(7) x room(4) x request kinds/identifiers", p, True),
+                ("membership changing between requests on live connections (disabled, re-enabled, admin / user admin demoted, moved between groups) x request kinds", m, False),
                 ("random seed=%d n=%d" % (seed, n), q, False)]
 
     def nontrivial(self, ops, outs):
@@ -103,10 +109,10 @@ class C08(Cfg):
             if out == "bad-op" or out.startswith("err:"):
                 if out != "err:mutation": res.append(("harness-error", "%s -> %s" % (op[:60], out)))
                 continue
-            if "t" in kv and kind in ("now", "room", "member", "row", "ref", "delref", "delrow"):
+            if "t" in kv and kind in ("now", "room", "group", "member", "row", "ref", "delref", "delrow"):
                 now = max(now, int(kv["t"]))
             if kind == "room": rooms.create(kv["r"], int(kv["t"]))
-            elif kind == "member": rooms.add(kv["r"], kv["role"], kv["k"], int(kv["t"]), kv["en"] == "1")
+            elif kind == "member": rooms.add(kv["r"], kv["role"], kv["k"], int(kv["t"]), kv["en"] == "1", kv.get("g", "0"))
             elif kind == "open": conns[kv["c"]] = {"key": None, "ready": True}
             elif kind == "auth": conns[kv["c"]] = {"key": kv["k"], "ready": kv["ready"] == "1"}
             elif kind == "q":
